@@ -195,26 +195,60 @@ def run(F, R, tier):
             atoms = paths.path_atoms(B, F, p)
             ret = None
             ins = None
+            # values along this path: constants, tuples and `count + 1` are followed through locals and tuple fields, so that
+            # `let (updated, n) = if .. { (true, 1) } else { (false, count + 1) }; insert(.., n); updated` reads like the literal form
+            env = {}
+
+            def val_of(o):
+                if o["k"] == "const":
+                    return ("const", o.get("val"))
+                pl = o["p"]
+                v = env.get(pl["l"])
+                for e_ in pl["p"]:
+                    if v is not None and v[0] == "tuple" and isinstance(e_, dict) and "f" in e_ and e_["f"] < len(v[1]):
+                        v = v[1][e_["f"]]
+                    else:
+                        v = None
+                        break
+                if v is not None:
+                    return v
+                org = B.origins(o)
+                if any(x[0] == "bin" and str(x[1]).startswith("Add") for x in org):
+                    return ("add",)
+                return ("opaque",)
             for b, _ in p:
                 for s in B.blocks[b]["stmts"]:
-                    if s["k"] == "assign" and s["lhs"]["l"] == 0 and s["rv"]["k"] == "use" and s["rv"]["o"]["k"] == "const":
-                        ret = bool(s["rv"]["o"].get("val"))
-                    o = None
-                    if s["k"] == "assign" and s["rv"]["k"] == "agg" and s["rv"]["ak"] == "tuple" and len(s["rv"]["ops"]) == 2:
-                        o = s["rv"]["ops"][1]
-                    elif s["k"] == "assign" and s["lhs"]["p"] == ["*"] and s["rv"]["k"] == "use":
+                    if s["k"] != "assign":
+                        continue
+                    rv = s["rv"]
+                    slot = None
+                    if rv["k"] == "agg" and rv["ak"] == "tuple" and len(rv["ops"]) == 2 and not s["lhs"]["p"]:
+                        tv_ = ("tuple", [val_of(x) for x in rv["ops"]])
+                        env[s["lhs"]["l"]] = tv_
+                        # the (value, count) pair handed to insert: its first component is a String
+                        if "String" in str(B.locals[s["lhs"]["l"]].get("ty", "")).split(",")[0]:
+                            slot = tv_[1][1]
+                    elif not s["lhs"]["p"] and rv["k"] == "use":
+                        env[s["lhs"]["l"]] = val_of(rv["o"])
+                    elif not s["lhs"]["p"] and rv["k"] == "bin" and str(rv["op"]).startswith("Add"):
+                        env[s["lhs"]["l"]] = ("tuple", [("add",), ("opaque",)]) if "Overflow" in str(rv["op"]) else ("add",)
+                    elif not s["lhs"]["p"]:
+                        env.pop(s["lhs"]["l"], None)
+                    elif s["lhs"]["p"] == ["*"] and rv["k"] == "use":
                         # in-place spelling: `*count = ..` through the &mut handed out by get_mut (the count is field 1 of the entry)
-                        slot = B.origins({"k": "copy", "p": {"l": s["lhs"]["l"], "p": []}})
-                        prm = [x for x in slot if x[0] == "param"]   # (values stored through the reference show up as const / bin origins)
+                        sl_ = B.origins({"k": "copy", "p": {"l": s["lhs"]["l"], "p": []}})
+                        prm = [x for x in sl_ if x[0] == "param"]
                         if prm and all(x[1] == "self" and x[2][:1] == ("state_map",) and x[2][-1:] == ("1",) for x in prm):
-                            o = s["rv"]["o"]
-                    if o is not None:
-                        if o["k"] == "const":
-                            ins = "const:%s" % o.get("val")
-                        else:
-                            org = B.origins(o)
-                            ins = "count+1" if any(x[0] == "bin" and x[1].startswith("Add") for x in org) else "expr"
-            entry = [a for a in atoms if a[0].startswith("discr(param:self.state_map")]
+                            slot = val_of(rv["o"])
+                    if slot is not None:
+                        ins = "const:%s" % slot[1] if slot[0] == "const" else ("count+1" if slot[0] == "add" else "expr")
+                    if s["lhs"]["l"] == 0 and not s["lhs"]["p"]:
+                        v0 = env.get(0)
+                        ret = bool(v0[1]) if v0 and v0[0] == "const" else None
+                t_ = B.blocks[b]["term"]
+                if t_["k"] == "call" and not t_["dest"]["p"]:
+                    env.pop(t_["dest"]["l"], None)
+            entry = [a for a in atoms if a[0].startswith("discr(") and ("state_map" in a[0] or "HashMap::get" in a[0])]
             found = bool(entry) and entry[0][1] == "Some"
             same = [a[1] for a in atoms if a[0].startswith("eq(") and "param:state_value" in a[0]]
             below = [a[1] for a in atoms if a[0].startswith("Lt(") and "param:max_count" in a[0]]
